@@ -229,6 +229,7 @@ fn word_string(ops: &[BOp]) -> String {
             BOp::Footer(_) => "footer".into(),
             BOp::Assertion(_) => "assertion".into(),
             BOp::Build => "BUILD".into(),
+            BOp::UseKey(_) => "use-key".into(),
         })
         .collect::<Vec<_>>()
         .join(" ")
